@@ -977,6 +977,37 @@ func c19(c *Ctx) {
 		c.SawFunc(FuncName(hi))
 		cloudReleaseRule(c, r, hi, map[string]*ssa.Function{"awaitingEvents": ue}, "awaitingEvents")
 		lexerTagsProvenance(c, r)
+		// an event that has to wait is parked on every path: the queue with the event appended is stored under its source
+		if hie := w.Func(P, "(*CloudHandler).handleIncomingEvent"); hie != nil {
+			c.SawFunc(FuncName(hie))
+			isPark := func(in ssa.Instruction) bool {
+				mu, ok := in.(*ssa.MapUpdate)
+				if !ok || !strings.HasSuffix(pathOf(mu.Map), ".awaitingEvents") {
+					return false
+				}
+				// the stored slice is append(<queue>, e) with e the event parameter
+				cl, ok := mu.Value.(*ssa.Call)
+				if !ok || !isCall(cl, "builtin append") {
+					return false
+				}
+				for _, el := range varargElems(cl.Call.Args[1]) {
+					if paramIndex(hie, el) == 1 {
+						return true
+					}
+				}
+				return false
+			}
+			m := countOnPaths(hie, isPark)
+			r.Check("handleIncomingEvent:parks-on-every-path", m == 2, hie.Pos(), "awaitingEvents[source] = append(queue, e) exactly once on every path: "+maskString(m))
+		} else {
+			r.Unresolved("(*CloudHandler).handleIncomingEvent")
+		}
+		// the HTTP ingestion endpoint hands every decoded event to the pipeline, synchronously, before answering
+		if eh := w.Func("pkg/web", "(*rawHttpHandlerV2).EventHandler"); eh != nil {
+			httpHandlerRule(c, r, eh, "DispatchEvent")
+		} else {
+			r.Unresolved("(*rawHttpHandlerV2).EventHandler")
+		}
 	})
 
 	c.Rule("C19.R4", "tags and order: static tags applied before forwarding; cloud tags applied before forwarding; stage order parser -> cloud -> tags -> sink", 4, func(r *Rule) {
